@@ -916,6 +916,8 @@ def plan(tier, seed):
     nrand = 500 if tier == 'quick' else 10000
     for i in range(nrand):
         cases.append({'fam': 'rand', 'groups': 3 if tier == 'quick' else 5})
+    for i in range(80 if tier == 'quick' else 1500):
+        cases.append({'fam': 'shift', 'i': i})
     nmal = 16 if tier == 'quick' else 150
     for cls in MALFORMED:
         for v in range(nmal):
@@ -1306,9 +1308,117 @@ def finish(obs, sets):
             'asl_executions': obs.get('asl_executions', 0)}
 
 
+def run_shift(ctx, case):
+    """statements with a lasting effect inside branches: SHIFT (and assignments to a variable) in a branch that is not selected must not
+    happen, in the selected branch they must; observed through the bytes the macro lays down from its parameters afterwards"""
+    out = ctx.out
+    rng = ctx.rng
+    n = rng.randrange(2, 7)
+    args = rng.sample(range(1, 250), n)
+    state = {'args': list(args), 'var': 0}
+    exp = []
+    lines = []
+
+    def truth(tv):
+        a, b = rng.sample(range(1, 99), 2)
+        if rng.random() < 0.4:
+            return str(int(tv))
+        op, val = rng.choice([('<', a < b), ('>', a > b), ('=', a == b), ('<>', a != b)])
+        return '%d%s%d' % (a, op, b) if val == tv else '~~(%d%s%d)' % (a, op, b)
+
+    def block(live, depth, ind):
+        for _ in range(rng.randrange(1, 5)):
+            r = rng.random()
+            if r < 0.35:
+                k = rng.randrange(len(state['args'])) if live else rng.randrange(n)
+                lines.append('%s byt\tparg%d' % (ind, k + 1))
+                if live:
+                    exp.append(state['args'][k])
+            elif r < 0.6:
+                if live and len(state['args']) < 2:
+                    continue
+                lines.append('%s shift' % ind)
+                if live:
+                    state['args'].pop(0)
+                    state['live_shifts'] = state.get('live_shifts', 0) + 1
+                else:
+                    state['skipped_shifts'] = state.get('skipped_shifts', 0) + 1
+            elif r < 0.7:
+                v = rng.randrange(1, 250)
+                lines.append('shv\tset\t%d' % v)
+                lines.append('%s byt\tshv' % ind) if live else None
+                if live:
+                    state['var'] = v
+                    exp.append(v)
+            elif depth < 3:
+                if rng.random() < 0.6:
+                    tvs = [rng.random() < 0.4 for _ in range(rng.choice([1, 1, 2, 3]))]
+                    taken = False
+                    for bi, tv in enumerate(tvs):
+                        lines.append('%s %s\t%s' % (ind, 'if' if bi == 0 else 'elseif', truth(tv)))
+                        block(live and tv and not taken, depth + 1, ind + ' ')
+                        taken = taken or tv
+                    if rng.random() < 0.6:
+                        lines.append('%s else' % ind)
+                        block(live and not taken, depth + 1, ind + ' ')
+                    lines.append('%s endif' % ind)
+                else:
+                    sel = rng.randrange(4)
+                    lines.append('%s switch\t%d' % (ind, sel))
+                    taken = False
+                    for cv in rng.sample(range(4), rng.randrange(1, 4)):
+                        lines.append('%s case\t%d' % (ind, cv))
+                        block(live and cv == sel and not taken, depth + 1, ind + ' ')
+                        taken = taken or cv == sel
+                    if rng.random() < 0.5:
+                        lines.append('%s elsecase' % ind)
+                        block(live and not taken, depth + 1, ind + ' ')
+                    lines.append('%s endcase' % ind)
+        # what is left of the parameters after the block is observable too
+        if live and depth == 0:
+            for k in range(len(state['args'])):
+                lines.append('%s byt\tparg%d' % (ind, k + 1))
+                exp.append(state['args'][k])
+
+    block(True, 0, '')
+    text = '\tcpu\t6502\nshv\tset\t0\nshm\tmacro\t%s\n%s\n\tendm\n\tshm\t%s\n\tbyt\tshv\n' % (
+        ','.join('parg%d' % (i + 1) for i in range(n)), '\n'.join(lines), ','.join(str(a) for a in args))
+    exp.append(state['var'])
+    ctx.write('sh.asm', text)
+    a = asl.assemble(ctx, 'sh.asm', [], trace=True)
+    out.sample = {'shift_program_head': text.split('\n')[:16]}
+    if a.run.timed_out:
+        out.inconc('timeout')
+        return
+    if a.run.san:
+        out.violate(a.run.san, 'shift family: %s' % a.run.err.decode('latin-1')[-600:])
+        return
+    shown = text.replace('\n', ' | ')
+    if a.rc != 0:
+        out.violate('wellformed:shift-family-rejected', 'status %s: %s | --- source | %s' % (a.rc, a.run.err.decode('latin-1')[:300].replace('\n', ' | '), shown))
+        return
+    try:
+        got = observed_bytes(a, out)
+    except Inconclusive as e:
+        out.inconc(str(e))
+        return
+    out.obs['shift_family_programs'] += 1
+    out.obs['shift_statements_in_skipped_branches'] += state.get('skipped_shifts', 0)
+    out.obs['shift_statements_in_selected_branches'] += state.get('live_shifts', 0)
+    out.nontrivial = True
+    out.sig = ('shift', n, min(len(exp), 12), text.count('switch') > 0, text.count('elseif') > 0)
+    if list(got or b'') != exp:
+        j = next((i for i, (x, y) in enumerate(zip(got, exp)) if x != y), min(len(got), len(exp)))
+        out.violate('select:lasting-effect-of-skipped-branch', 'byte %d is %s, the documented selection of branches gives %s (SHIFT / SET inside a branch that is not selected must not happen) | --- source | %s'
+                    % (j, got[j] if j < len(got) else 'missing', exp[j] if j < len(exp) else 'nothing', shown))
+
+
 def run_case(case, ctx):
     fam = case['fam']
     rng = ctx.rng
+    if fam == 'shift':
+        run_shift(ctx, case)
+        return
     if fam == 'malformed':
         run_malformed(ctx, case)
         return
